@@ -70,6 +70,7 @@ func VerifH_done() {
 	done(balancer.DoneInfo{Err: derr})
 	verifReach("after done")
 	post := w.snap()
+	verifPickersUnchanged(pre, post)
 	verifAssert(verifLocksFree(), "C06: completion callback left a lock held")
 
 	// C02(c): every completion removes exactly one stream from the channel the call was placed on
